@@ -26,6 +26,8 @@ pub enum Op {
 pub enum Case {
     History { dseed: u64, counter: u8, ops: Vec<Op>, mutate: u16 },
     FriPhase { inst: Inst, which: u16 },
+    /// proof-of-work commit and table commit: the message must be absorbed (whatever the difficulty)
+    PowPhase { dseed: u64, counter: u8, n_bits: u8, start: u64 },
 }
 
 fn op_strategy() -> impl Strategy<Value = Op> {
@@ -244,8 +246,73 @@ fn check_fri_phase(inst: &Inst, which: u16) -> Outcome {
     Outcome::pass(class, true, f)
 }
 
+/// PoW commit phase: for two different valid nonces the resulting digests differ from each other and
+/// from the state before; the counter is reset; table_commit likewise binds its commitment.
+fn check_pow_phase(dseed: u64, counter: u8, n_bits: u8, start: u64) -> Outcome {
+    use super::c09::{init_hash, lz_with_init};
+    use swiftness_commitment::table::{commit::table_commit, config::Config as TConfig};
+    use swiftness_commitment::vector::config::Config as VConfig;
+    use swiftness_pow::{config::Config, pow::UnsentCommitment};
+    let f = fp(&(dseed, counter, n_bits, start));
+    let class = format!("phase/pow_commit/n{}", n_bits);
+    let d0 = prf_felt(dseed, 0);
+    // two distinct valid nonces by the independent oracle
+    let init = init_hash(&d0.to_bytes_be(), n_bits);
+    let mut nonces = Vec::new();
+    let mut k = start;
+    while nonces.len() < 2 {
+        if lz_with_init(&init, k) >= n_bits as u32 {
+            nonces.push(k);
+        }
+        k = k.wrapping_add(1);
+    }
+    let run = |nonce: u64| {
+        let mut t = Transcript::new_with_counter(d0, Felt::from(counter as u64));
+        let ok = UnsentCommitment { nonce }.commit(&mut t, &Config { n_bits }).is_ok();
+        (ok, *t.digest(), *t.counter(), t.random_felt_to_prover())
+    };
+    let (a, b) = match guarded(false, || (run(nonces[0]), run(nonces[1]))) {
+        Err(pn) => return Outcome::failed(class, f, pn.signature(), pn.describe()),
+        Ok(x) => x,
+    };
+    if !a.0 || !b.0 {
+        return Outcome::failed(class, f, "c08:pow_valid_nonce_rejected", "a nonce valid by the bit-level oracle was rejected");
+    }
+    if a.1 == d0 || b.1 == d0 {
+        return Outcome::failed(class, f, "c08:pow_nonce_not_absorbed", format!("digest unchanged by the PoW commit at difficulty {}", n_bits));
+    }
+    if a.1 == b.1 || a.3 == b.3 {
+        return Outcome::failed(class, f, "c08:pow_nonce_not_bound", format!("two different nonces ({:#x}, {:#x}) give the same digest / next challenge at difficulty {}", nonces[0], nonces[1], n_bits));
+    }
+    if a.2 != Felt::ZERO {
+        return Outcome::failed(class, f, "c08:counter_not_reset", "counter not reset by the PoW absorb");
+    }
+    // the difficulty itself is not a message: same nonce valid at two difficulties => same digest
+    if n_bits > 0 && lz_with_init(&init_hash(&d0.to_bytes_be(), n_bits - 1), nonces[0]) >= (n_bits - 1) as u32 {
+        let mut t = Transcript::new_with_counter(d0, Felt::from(counter as u64));
+        if (UnsentCommitment { nonce: nonces[0] }).commit(&mut t, &Config { n_bits: n_bits - 1 }).is_ok() && *t.digest() != a.1 {
+            return Outcome::failed(class, f, "c08:difficulty_changes_digest", "the digest after the PoW commit depends on the difficulty, not only on the nonce");
+        }
+    }
+    // table_commit binds the commitment
+    let vc = VConfig { height: Felt::from(5u64), n_verifier_friendly_commitment_layers: Felt::ZERO };
+    let tcfg = TConfig { n_columns: Felt::TWO, vector: vc };
+    let tc = |root: Felt| {
+        let mut t = Transcript::new_with_counter(d0, Felt::from(counter as u64));
+        let c = table_commit(&mut t, root, tcfg.clone());
+        (c.vector_commitment.commitment_hash, *t.digest(), *t.counter())
+    };
+    let r = prf_felt(dseed, 9);
+    let (x, y) = (tc(r), tc(r + Felt::ONE));
+    if x.0 != r || x.1 == y.1 || x.1 == d0 || x.2 != Felt::ZERO {
+        return Outcome::failed(class, f, "c08:table_commit_not_bound", "table_commit does not absorb its commitment / reset the counter / return it");
+    }
+    Outcome::pass(class, true, f)
+}
+
 pub fn check(c: &Case) -> Outcome {
     match c {
+        Case::PowPhase { dseed, counter, n_bits, start } => check_pow_phase(*dseed, *counter, *n_bits, *start),
         Case::History { dseed, counter, ops, mutate } => check_history(*dseed, *counter, ops, *mutate),
         Case::FriPhase { inst, which } => check_fri_phase(inst, *which),
     }
@@ -269,6 +336,14 @@ pub fn run(ctx: &Ctx) -> Report {
         "c08f",
         ctx.n(300, 5000),
         || (inst_strategy(8), any::<u16>()).prop_map(|(inst, which)| Case::FriPhase { inst, which }),
+        check,
+        &mut rep,
+    );
+    pt_run(
+        ctx,
+        "c08p",
+        ctx.n(600, 10000),
+        || (any::<u64>(), 0u8..3, 0u8..=10, any::<u64>()).prop_map(|(dseed, counter, n_bits, start)| Case::PowPhase { dseed, counter, n_bits, start }),
         check,
         &mut rep,
     );
